@@ -263,7 +263,12 @@ def observe_c11(entry: dict, seed: int, opts: dict) -> dict:
 
 def _observe_chunk(args):
   fn_name, entries, seed, opts = args
-  fn = globals()[fn_name]
+  if ':' in fn_name:                    # 'package.module:function'
+    import importlib  # pylint: disable=import-outside-toplevel
+    mod, name = fn_name.split(':')
+    fn = getattr(importlib.import_module(mod), name)
+  else:
+    fn = globals()[fn_name]
   return [fn(e, seed, opts) for e in entries]
 
 
